@@ -608,6 +608,17 @@ Theorem C17_suffix_sites_from_model : forallb segment_matches (seq 0 10) = true.
 Proof. exact suffix_sites_from_model. Qed.
 Print Assumptions C17_suffix_sites_from_model.
 
+(* the name class: the laws of lib/Strcase.v the acceptance proof uses hold for ASCII identifiers ([ident] /
+   [name_ok], the quantifier's names).  The j5s lexer also accepts non-ASCII letters; on bytes that class
+   contains encoded white space which TrimSpace removes, so the laws do not extend to it (a name whose first
+   and last bytes are ASCII identifier bytes is never trimmed) *)
+Theorem C17_name_class_boundary :
+  (exists s, ident8 s = true /\ trim_space s <> s /\ to_snake (104 :: 105 :: s) <> 104 :: 105 :: s)
+  /\ (forall c s d, plain c = true -> plain d = true -> trim_space (c :: s ++ [d]) = c :: s ++ [d])
+  /\ (forall s, ident s = true -> trim_space s = s).
+Proof. exact (conj trim_space_ident8_refuted (conj trim_space_ident8_ascii_ends trim_space_ident)). Qed.
+Print Assumptions C17_name_class_boundary.
+
 (* the same two ties WITHOUT a probe: for every declaration *)
 Theorem C17_run_order_for_every_declaration : forall e fl,
   landmarks (expand_with e fl) = flat_map (defines e) EntityGen.run_order ++ map schema_landmark (e_schemas e).
